@@ -5,7 +5,7 @@ use crate::case::{new_vt, Call, Case, Verdict};
 use crate::engine::{random_part, run_part, Env, EvidenceMeta, Tally};
 use crate::gen::{self, G};
 use crate::model::{row_of, PenSpec};
-use crate::observe::{geometry_violation, logical, trim_sp};
+use crate::observe::{geometry_violation, logical, logical_cells, pens_relation, trim_sp};
 use crate::reffn::RefFn;
 use crate::src::Src;
 use crate::walk::{Event, WalkEnd, Walker};
@@ -17,6 +17,7 @@ struct Snapshot {
     cols: usize,
     logical: Vec<String>,
     logical_cursor: (usize, usize),
+    cells: Vec<Vec<crate::model::CellSpec>>,
     size: (usize, usize),
     enter_mode: u16,
     resized: bool,
@@ -79,6 +80,7 @@ pub fn judge(_part: &str, case: &Case, tally: &mut Tally) -> Verdict {
                         cols: p.size().0,
                         logical: lg,
                         logical_cursor: lc,
+                        cells: logical_cells(&p),
                         size: p.size(),
                         enter_mode: if pure { mode_of(rec.f) } else { 0 },
                         resized: false,
@@ -141,6 +143,9 @@ pub fn judge(_part: &str, case: &Case, tally: &mut Tally) -> Verdict {
                             let (lg, lc) = logical(&wk.vt);
                             if let Some(m) = cut_short_relation(&p.logical, &lg) {
                                 return Some(Verdict::fail("resized-altered", format!("after an excursion with resizes the primary's logical lines were altered: {}", m)));
+                            }
+                            if let Some(m) = pens_relation(&p.cells, &logical_cells(&wk.vt), 0) {
+                                return Some(Verdict::fail("resized-pens", format!("after an excursion with resizes a pen of the primary's text changed: {}", m)));
                             }
                             if pair_1049 {
                                 tally.class("pair_1049_with_resize");
